@@ -32,6 +32,8 @@ var c06Pool = []refmodel.RouteDef{
 	{Path: `/a/{n:\d+}`, Methods: []string{"DELETE", "PATCH"}},
 	// a dynamic route registered for GET and HEAD in one call
 	{Path: "/a/{x}", Methods: []string{"GET", "HEAD"}},
+	// the same literal text and variable name as the routes above, another variable regex
+	{Path: "/a/{x:[a-z]+}", Methods: []string{"POST"}},
 }
 
 // two pool entries may not share a table when they would register the same static method+path twice
@@ -78,6 +80,8 @@ type c06Case struct {
 	// Twin: a second router holding the same table but the OTHER StrictLastSlash setting serves every request right
 	// before this one does; the paths also come in unclean spellings (doubled / missing leading slash)
 	Twin bool `json:"twin_router_with_other_strictness_served_first,omitempty"`
+	// UseAfter: a pass-through global middleware is added with Router.Use AFTER the custom NotFound / NotAllowed handlers were installed
+	UseAfter bool `json:"global_middleware_added_after_custom_handlers,omitempty"`
 }
 
 func c06Gen(tier string, emit func(c06Case)) {
@@ -130,6 +134,9 @@ func c06Gen(tier string, emit func(c06Case)) {
 			for _, ic := range c06Intercepts {
 				for h := 0; h < 4; h++ {
 					emit(c06Case{Routes: t, NotAllowed: o&1 != 0, Fallback: o&2 != 0, Strict: o&4 != 0, Cache: o&8 != 0, Intercept: ic, CustomNF: h&1 != 0, CustomNA: h&2 != 0})
+					if ic == "" && h > 0 {
+						emit(c06Case{Routes: t, NotAllowed: o&1 != 0, Fallback: o&2 != 0, Strict: o&4 != 0, Cache: o&8 != 0, CustomNF: h&1 != 0, CustomNA: h&2 != 0, UseAfter: true})
+					}
 					if ic != "" && h == 0 {
 						// options are applied in argument order: the same set with InterceptAll listed first
 						emit(c06Case{Routes: t, NotAllowed: o&1 != 0, Fallback: o&2 != 0, Strict: o&4 != 0, Cache: o&8 != 0, Intercept: ic, InterceptFirst: true})
@@ -216,7 +223,13 @@ func c06Run(c c06Case, st *fw.Stats) []fw.Viol {
 			ctx.Text(405, "NA|"+ctxAllowed)
 		})
 	}
+	if c.UseAfter {
+		r.Use(func(ctx *rux.Context) { ctx.Next() })
+	}
 	cfg := func() string {
+		if c.UseAfter {
+			return fmt.Sprintf("table [%s] options{notAllowed=%v fallback=%v strict=%v cache=%v customNF=%v customNA=%v} (a pass-through global middleware added with Use after the custom handlers were installed)", defsString(defs), c.NotAllowed, c.Fallback, c.Strict, c.Cache, c.CustomNF, c.CustomNA)
+		}
 		if c.Late > 0 {
 			return fmt.Sprintf("table [%s] (the last %d registered after a first round of all requests) options{notAllowed=%v fallback=%v strict=%v cache=%v}", defsString(defs), c.Late, c.NotAllowed, c.Fallback, c.Strict, c.Cache)
 		}
@@ -390,7 +403,7 @@ func c06Run(c c06Case, st *fw.Stats) []fw.Viol {
 var c06Spec = fw.Spec[c06Case]{
 	ID:    "C06",
 	Level: "model_checking",
-	Rule: "complete product: ordered tables of <=K routes from a 14-route pool x 2^4 option subsets {HandleMethodNotAllowed,HandleFallbackRoute,StrictLastSlash,caching (capacity 1 or 64)} x 6 InterceptAll values (listed after and before the other options) (+ every table with its last 1 or 2 routes registered only after a first round of all requests) (+ every table registered through each of the 6 other registration APIs) (+ request paths of every length 20..319 bytes against a two-route table) (+ every table and option subset again, incl. six unclean path spellings, with a second router of the other StrictLastSlash setting serving every request first) x {default,custom} NotFound x {default,custom} NotAllowed; per configuration 10 methods x 8 paths, each request twice through Match and ServeHTTP, vs refmodel.Resolve; " +
+	Rule: "complete product: ordered tables of <=K routes from a 15-route pool x 2^4 option subsets {HandleMethodNotAllowed,HandleFallbackRoute,StrictLastSlash,caching (capacity 1 or 64)} x 6 InterceptAll values (listed after and before the other options) (+ every table with its last 1 or 2 routes registered only after a first round of all requests) (+ every table registered through each of the 6 other registration APIs) (+ request paths of every length 20..319 bytes against a two-route table) (+ every table and option subset again, incl. six unclean path spellings, with a second router of the other StrictLastSlash setting serving every request first) x {default,custom} NotFound x {default,custom} NotAllowed (the custom ones also followed by a later Router.Use); per configuration 10 methods x 8 paths, each request twice through Match and ServeHTTP, vs refmodel.Resolve; " +
 		"non-trivial = a request that is not a direct match (HEAD->GET, fallback, 405, 404)",
 	Assume: []string{"routes, paths and option values come from the stated alphabets"},
 	Bounds: func(tier string) map[string]any {
